@@ -125,8 +125,8 @@ def jobs(tier):
     for name in names + three:
         t = cur[name]
         K = 3 if ((name.startswith('tb') and len(t['types']) == 2) or name.startswith('fanout_shift2')) else 2
-        if not q and len(t['types']) == 2:
-            K = 3
+        if not q and len(t['types']) == 2 and name != 'evloop':
+            K = 3     # evloop (two event-based simulators triggering each other) does not finish at K=3
         for v in variants(t, tier):
             v = dict(v)
             v.update({'until': 3, 'K': K, 'D': v.get('D', 0), 'salt': v.get('salt', 0)})
